@@ -30,7 +30,7 @@ class ElabWorld(World):
     stub_components = ("free-standing subordinate / initiator interfaces and register element "
                        "ports driven by seeded values",)
     fault_kinds = ("re_elaboration", "simulate_then_convert", "convert_then_simulate",
-                   "repeated_conversion")
+                   "repeated_conversion", "extended_after_elaboration")
     assumptions = (
         "RTLIL text equality of successive conversions is taken as 'the same hardware'; trace "
         "equality of two simulations under identical stimulus as its behavioural counterpart",
@@ -176,6 +176,23 @@ class ElabWorld(World):
                                 key=f"metadata:{cls_name}")
             hist.rec(step, k, hashlib.blake2b(texts[-1].encode(), digest_size=8).hexdigest()
                      if k == "rtlil" else traces[-1])
+        # ---- a further legal configuration call must behave as on a never-elaborated twin ------
+        if b.extend is not None and n_elab >= 1:
+            twin = build(config["cfg"])
+
+            def outcome(fn):
+                try:
+                    return ("ok", repr(fn()))
+                except Exception as e:
+                    return ("raised", type(e).__name__)
+            got, want = outcome(b.extend), outcome(twin.extend)
+            stats.checks += 1
+            stats.fault("extended_after_elaboration")
+            if got != want:
+                raise Violation("C19", "elaboration-altered-metadata", len(ops),
+                                f"{cls_name}: after elaboration a further add() gives {got}, on a "
+                                f"never-elaborated instance of the same configuration {want}",
+                                key=f"extend-after-elaboration:{cls_name}")
         if n_elab >= 2:
             stats.work += 1
         stats.state("class(elaborations)", f"{cls_name},{min(n_elab, 4)}")
